@@ -14,6 +14,8 @@
 //       the nearest boundary is at most |p - X|), and the direction towards X joins alphabet (b).
 // find_safety(max) (documented as the same quantity restricted to nearby surfaces) must obey
 // the same bounds, for a max above and a max below the safety.
+// (4) exactly degenerate points of the stored surfaces (sphere centres, points on cylinder axes of
+// every universe instance): ordinary interior points where the surface normal does not exist.
 // An INFINITE safety is judged like any other value: (b) fails for every finite distance.  Only
 // when every direction of the alphabet is unbounded as well is it tagged and accepted.
 //
@@ -103,11 +105,39 @@ struct Known
     std::string what;
 };
 
+//! With a Verdict the violation is returned to the caller instead of being reported
+struct Verdict
+{
+    bool violated{false};
+    std::string sig, msg;
+};
+
 // Evaluate the claims at point p (already known to be unambiguously inside `loc0`)
 static void check_point(Ctx& c, D3 const& p, OLocation const& loc0, std::string const& cid,
-                        char const* how, Known const* known = nullptr)
+                        char const* how, Known const* known = nullptr, Verdict* verdict = nullptr)
 {
-    vf::Run& R = c.R;
+    vf::Run& R0 = c.R;
+    // local reporter: same interface as the two Run calls used below
+    struct Rep
+    {
+        vf::Run& R;
+        Verdict* v;
+        void violation(std::string const& sig, std::string const& cid, std::string const& msg)
+        {
+            if (v)
+            {
+                v->violated = true;
+                v->sig = sig;
+                v->msg = msg;
+            }
+            else
+                R.violation(sig, cid, msg);
+        }
+        void count(char const* k, uint64_t n = 1) { R.count(k, n); }
+        void tag(std::string const& t) { R.tag(t); }
+        void nontrivial(uint64_t h) { R.nontrivial(h); }
+        void harness_error(std::string const& m) { R.harness_error(m); }
+    } R{R0, verdict};
     auto v = c.env.view(0);
     D3 d0 = c.dirs[0];
     v = GeoTrackInitializer{Real3{p[0], p[1], p[2]}, Real3{d0[0], d0[1], d0[2]}};
@@ -343,14 +373,61 @@ int main(int argc, char** argv)
         double tol = std::max(env->oracle->tol_abs(), env->oracle->tol_rel() * scale);
         Ctx c{R, *env, scale, 10 * tol, dirs, sphere};
         auto samples = vf::oracle_samples(*env->oracle, env->lo, env->hi, c.eps_amb, scale, sopt);
+        auto degen = vf::degenerate_points(*env->oracle, env->lo, env->hi, scale);
         int const nlat = n * n * n;
-        int const total = nlat + int(samples.size());
+        int const total = nlat + int(samples.size()) + int(degen.size());
         for (int ip = 0; ip < total; ++ip, ++outer)
         {
             if (!R.mine(outer))
                 continue;
             if (R.expired())
                 break;
+            if (ip >= nlat + int(samples.size()))
+            {
+                // exactly degenerate point of a stored surface (sphere centre / cylinder axis)
+                int k = ip - nlat - int(samples.size());
+                vf::ODegenerate const& dg = degen[k];
+                std::string cid = fmt("safety:%s:degenerate=%d", zoo[gi].name.c_str(), k);
+                if (!R.want(cid))
+                    continue;
+                OLocation l0 = env->oracle->locate(dg.p, c.eps_amb);
+                if (l0.status != OLocation::ok || l0.outside)
+                {
+                    R.count("starts_skipped");
+                    continue;
+                }
+                R.begin_case(cid, 60);
+                R.tag(dg.axis ? "point:on-cylinder-axis" : "point:sphere-centre");
+                R.count("degenerate_points");
+                Verdict a;
+                check_point(c, dg.p, l0, cid, dg.axis ? "exactly on a cylinder axis" : "exactly at a sphere centre",
+                            nullptr, &a);
+                if (a.violated)
+                {
+                    // the same claims 1e-6 x scale beside the point (off the axis / centre): if they
+                    // hold there, the failure belongs to the degenerate-normal branch alone
+                    D3 q = {dg.p[0] + 0.61e-6 * scale, dg.p[1] - 0.53e-6 * scale, dg.p[2] + 0.59e-6 * scale};
+                    OLocation lq = env->oracle->locate(q, c.eps_amb);
+                    Verdict b;
+                    if (lq.status == OLocation::ok && chain_of(lq) == chain_of(l0))
+                        check_point(c, q, lq, cid, "beside the degenerate point", nullptr, &b);
+                    else
+                        b.violated = true;  // cannot tell: keep the generic signature
+                    if (!b.violated)
+                        R.violation("safety:face-ignored-at-exact-" + std::string(dg.axis ? "cylinder-axis" : "sphere-centre"),
+                                    cid,
+                                    a.msg + fmt(" [surface %d (%s) of universe %d; the claims hold 1e-6 x "
+                                                "scale beside the point]",
+                                                dg.surface,
+                                                celeritas::to_cstring(
+                                                    env->oracle->universe(dg.universe).surfaces[dg.surface].type),
+                                                dg.universe));
+                    else
+                        R.violation(a.sig, cid, a.msg);
+                }
+                R.end_case();
+                continue;
+            }
             if (ip < nlat)
             {
                 int ix = ip / (n * n), iy = (ip / n) % n, iz = ip % n;
